@@ -114,7 +114,7 @@ def main(rep, tier, only):
     else:
         u = fn["_unit"]
         rets = [r for r in F.walk(fn.get("body")) if r.get("k") == "return"]
-        t = T.norm(u, rets[0]["e"]) if rets else None
+        t = T.snorm(u, fn, rets[0]["e"]) if rets else None
         ok = isinstance(t, tuple) and t[0] == "cond" and T.show(t[1]).replace(" ", "") in ("(r_a1==std::endian::native)", "(std::endian::native==r_a1)") \
             and T.show(t[2]) == "r_a0" and T.show(t[3]) == "swap(r_a0)"
         (rep.ok if ok else rep.fail)("CONV", "endianness::convert", F.primary_site(fn), F.describe(fn), **({"how": "native ? id : swap"} if ok else {"why": "convert is %s" % (T.show(t) if t else "?")}))
